@@ -32,7 +32,7 @@ func hasBackEdge(fn *ssa.Function) bool {
 }
 
 func (tr *Tr) canInline(fr *frame, fn *ssa.Function) bool {
-	if len(fn.Blocks) == 0 || fr.depth >= 4 || countInstr(fn) > 220 || hasBackEdge(fn) {
+	if len(fn.Blocks) == 0 || fr.depth >= 7 || countInstr(fn) > 220 || hasBackEdge(fn) {
 		return false
 	}
 	for _, s := range fr.stack {
@@ -369,6 +369,20 @@ func (tr *Tr) applyContract(fr *frame, callee *ssa.Function, c *Contract, args [
 				for _, r := range t.refs {
 					fv := tr.declareConst(elemSortOfArray(tr.C.heapSort[k]), k+"_at")
 					cur = sto(cur, r, fv)
+				}
+				for _, in := range t.inner {
+					// only a window of the array at in[0] changes: a fresh array that agrees with the old
+					// one outside [in[1], in[2])
+					if len(in) != 3 {
+						continue
+					}
+					asrt := elemSortOfArray(tr.C.heapSort[k])
+					na := tr.declareConst(asrt, k+"_win")
+					oldArr := sel(cur, in[0])
+					q := tr.C.fresh("k")
+					tr.assume(fr.curReach, fmt.Sprintf("(forall ((%s %s)) (! (=> (or (bvslt %s %s) (bvsge %s %s)) (= (select %s %s) (select %s %s))) :pattern ((select %s %s))))",
+						q, innerIndexSort(tr.C.heapSort[k]), q, in[1], q, in[2], na, q, oldArr, q, na, q))
+					cur = sto(cur, in[0], na)
 				}
 				fr.heap.m[k] = tr.define(tr.C.heapSort[k], cur, k)
 			}
